@@ -247,13 +247,16 @@ where
     where
         Registry: ContainsEntities<Entities, Indices>,
     {
-        self.len += entities.len();
+        let len = entities.len();
+        self.len += len;
 
         let canonical_entities =
             // SAFETY: Since `entities` is already a `Batch`, then the canonical entities derived
             // from `entities` can safely be converted into a batch as well, since the components
             // will be of the same length.
-            unsafe { entities::Batch::new_unchecked(Registry::canonical(entities.entities)) };
+            unsafe {
+                entities::Batch::new_unchecked_with_len(Registry::canonical(entities.entities), len)
+            };
 
         // SAFETY: Since the archetype was obtained using the `identifier_buffer` created from the
         // entities `E`, then the entities are guaranteed to be made up of componpents identified
